@@ -68,6 +68,7 @@ type Sched struct {
 	keepLog bool
 	onEvent func(g *gstate, e Event) // called under mu for managed goroutines (free-running mode)
 	timerN  int
+	panics  []string // panics of the code under test inside managed goroutines
 	// free-running stress
 	uniqueTimers bool              // every timer goroutine gets a fresh name
 	preLock      func(ev string)   // called WITHOUT s.mu before the event is recorded
@@ -262,16 +263,50 @@ func (s *Sched) startOp(name string, fn func(g *gstate) any) *gstate {
 		g.goids = append(g.goids, id)
 		s.mu.Unlock()
 		close(ready)
-		r := fn(g)
-		s.mu.Lock()
-		g.ret = r
-		g.done = true
-		delete(s.byGoid, id)
-		s.cond.Broadcast()
-		s.mu.Unlock()
+		var r any
+		defer func() {
+			if pv := recover(); pv != nil {
+				buf := make([]byte, 8192)
+				n := runtime.Stack(buf, false)
+				s.mu.Lock()
+				s.panics = append(s.panics, fmt.Sprintf("%v\n%s", pv, buf[:n]))
+				s.mu.Unlock()
+			}
+			s.mu.Lock()
+			g.ret = r
+			g.done = true
+			delete(s.byGoid, id)
+			s.cond.Broadcast()
+			s.mu.Unlock()
+		}()
+		r = fn(g)
 	}()
 	<-ready
 	return g
+}
+
+// guarded runs f in its own goroutine under a watchdog and converts a panic of the code under test into a
+// value (a panic in a goroutine would otherwise end the whole driver and lose the report).
+func guarded(d time.Duration, f func()) (ok bool, panicVal string, dump string) {
+	done := make(chan string, 1)
+	go func() {
+		defer func() {
+			if r := recover(); r != nil {
+				buf := make([]byte, 8192)
+				n := runtime.Stack(buf, false)
+				done <- fmt.Sprintf("%v\n%s", r, buf[:n])
+				return
+			}
+			done <- ""
+		}()
+		f()
+	}()
+	select {
+	case pv := <-done:
+		return true, pv, ""
+	case <-time.After(d):
+		return false, "", dumpAll()
+	}
 }
 
 // forget removes a finished goroutine's name so that it can be reused.
@@ -415,6 +450,14 @@ func (s *Sched) freeAll() {
 	s.free = true
 	s.cond.Broadcast()
 	s.mu.Unlock()
+}
+
+func (s *Sched) takePanics() []string {
+	s.mu.Lock()
+	defer s.mu.Unlock()
+	p := s.panics
+	s.panics = nil
+	return p
 }
 
 func (s *Sched) heldBy(name string) []string {
